@@ -332,18 +332,27 @@ def maint_scenario(rng, size='quick', **over):
 
 
 BG_CALLS = ['close_active_bg', 'create_active_bg', 'restore_active_bg', 'force always', 'force never',
-            'force nonempty', 'close_active', 'create_active', 'restore_active', 'free']
+            'force nonempty', 'close_active', 'create_active', 'restore_active', 'free', 'force panic']
 
 
 def worker_scenario(rng, size='quick', **over):
     """C13: arbitrary public calls (all *_in_background variants in every active-blob state, force updates,
     data ops), then an overflow of the active blob past the debounce interval, then close"""
     maxdata = rng.choice([2, 3, 5])
-    c, line = cfg_line(rng, dup=1, maxdata=maxdata, **over)
+    c, line = cfg_line(rng, dup=1, maxdata=maxdata, dirty=rng.choice([33554432, 33554432, 100, 0]), **over)
     klen = c['key']
     keys = mk_keys(rng, klen, 3)
     lines = [line, 'states']
     seed = 1
+    if c['dirty'] <= 100 and rng.random() < 0.4:
+        # a write over the dirty-byte limit requests the background sync; by the time the request is served the active blob
+        # has been closed by hand (or the storage is being closed): the sync task must still finish, and `close` return
+        shape = rng.choice(['close', 'close_active'])
+        lines += ['nomodel', f'w {keys[0]} 5 - 2000 1 @nodrain', 'states']
+        if shape == 'close_active':
+            lines += ['close_active', 'states', 'alive']
+        lines += ['close', 'open', 'states', f'r {keys[0]}', 'alive']
+        seed += 1
     n_calls = rng.randint(2, 8) if size == 'quick' else rng.randint(4, 20)
     for _ in range(n_calls):
         if rng.random() < 0.7:
@@ -453,6 +462,20 @@ def restart_scenario(rng, size='quick', **over):
     absent = absent_keys(rng, klen, keys)
     lines = [line, 'states']
     seed = 1
+    if rng.random() < 0.12:
+        # more than ten blobs (ids of two digits: `t.10.blob` sorts before `t.2.blob` as a string), one key written with ONE
+        # timestamp into every one of them: which blob is newest, and which becomes active, must survive the restart
+        for b in range(rng.choice([11, 12, 13])):
+            lines += [f'w {keys[0]} 5 - 3 {seed % 250 + 1}', 'states']
+            seed += 1
+            if rng.random() < 0.3:
+                lines += [f'w {rng.choice(keys)} {rng.choice(TS_POOL)} - 3 {seed % 250 + 1}', 'states']
+                seed += 1
+            lines += [rng.choice(['force always', 'force always', 'close_active']), 'states']
+        lines += queries('all', keys, absent)
+        lines += [rng.choice(['restart', 'restart', 'restart lazy']), 'states'] + queries('all', keys, absent)
+        lines += [f'w {keys[0]} 5 - 3 {seed % 250 + 1}', 'states'] + queries('all', keys[:1], absent[:1])
+        seed += 1
     n_ops = rng.randint(6, 16) if size == 'quick' else rng.randint(10, 60)
     for i in range(n_ops):
         x = rng.random()
@@ -473,6 +496,10 @@ def restart_scenario(rng, size='quick', **over):
             mode = 'kinds' if (size == 'quick' or rng.random() < 0.8) else f'lens:{rng.choice([1, 7, 13, 29])}'
             lines += [f'dmgsweep {mode}' + (' lazy' if rng.random() < 0.3 else ''), 'states']
             lines += queries('all', keys, absent)
+    if rng.random() < 0.25:
+        # close and reopen of a storage whose blob file name prefix is not a single dot-free word (a scratch directory next to
+        # the live one: write, close, open with and without index files, read everything back)
+        lines += [f'metasweep {rng.randrange(1, 10**6)} {rng.choice(["my.store", "a.b.c", "v1.2", "node-7", "x"])}']
     return lines
 
 
